@@ -263,7 +263,7 @@ func enum(g Generator, spec *compile.EnumSpec) error {
 				<end ->
 				}
 			<end ->
-			return fmt.Sprintf("<$enumName>(%d)", <$w>)
+			return <$fmt>.Sprintf("<$enumName>(%d)", <$w>)
 		}
 
 		<$rhs := newVar "rhs">
